@@ -112,9 +112,11 @@ Proof. exact CallLifeProofs.outcome_classes. Qed.
 Print Assumptions C09_outcome.
 
 (* ---------- clause 3: nothing is left behind ---------- *)
-(* at every reachable state the three values are functions of where the callers stand *)
+(* at every reachable state the three values are functions of where the callers stand.  The counter and the table are
+   moved by separate instructions: [counted] = between AddInt32(&queueLen, 1) and the deferred AddInt32(-1), [inside] =
+   between resp.Store and the deferred resp.Delete, [invoked] = between preInvoke and postInvoke *)
 Theorem C09_restored : forall c s, reach c s ->
-  queueLen s = cnt inside (calls s) /\ invokeNum s = cnt invoked (calls s) /\
+  queueLen s = cnt counted (calls s) /\ invokeNum s = cnt invoked (calls s) /\
   (forall i, In i (resp s) <-> inside_at (calls s) i) /\ NoDup (resp s).
 Proof. exact CallLifeProofs.restored_counts. Qed.
 Print Assumptions C09_restored.
@@ -126,7 +128,7 @@ Proof. exact CallLifeProofs.restored_quiescent. Qed.
 Print Assumptions C09_restored_quiescent.
 
 Theorem C09_restored_no_call_inside : forall c s, reach c s ->
-  (forall i k, nth_error (calls s) i = Some k -> inside k = false) -> queueLen s = 0%Z /\ resp s = [].
+  (forall i k, nth_error (calls s) i = Some k -> in_doInvoke k = false) -> queueLen s = 0%Z /\ resp s = [].
 Proof. exact CallLifeProofs.restored_no_call_inside. Qed.
 Print Assumptions C09_restored_no_call_inside.
 
